@@ -7,7 +7,11 @@ from .routing import TYPES, cargo_shard, rename_crate
 
 PAYLOAD = {"raw": [("payload", "Binary")], "bin": [("payload", "Binary")], "t1": [("p1", "u32")], "t2": [("p1", "u32"), ("p2", "String")],
            "t3": [("p1", "u32"), ("p2", "String"), ("p3", "Nested")],
-           "tn": [("gas_limit", "u32"), ("msg", "String"), ("id", "Nested")]}
+           "tn": [("gas_limit", "u32"), ("msg", "String"), ("id", "Nested")],
+           "tm": [("payload", "u32"), ("data", "String"), ("result", "Nested")],
+           "te": [("error", "String"), ("gas_used", "u32"), ("events", "Nested")],
+           "td": [("deps", "u32"), ("env", "String"), ("msg_responses", "Nested")],
+           "ts": [("error", "String"), ("p2", "u32")]}      # (an error handler's payload parameter called like the dispatcher's own error text, and of its type)
 DATA_TY = {"plainO": "Option<Nested>", "plain": "Nested", "opt": "Option<Nested>", "raw": "Binary", "rawopt": "Option<Binary>",
            "inst": "MsgInstantiateContractResponse", "instopt": "Option<MsgInstantiateContractResponse>"}
 DATA_ATTR = {"plainO": "#[sv::data]", "plain": "#[sv::data]", "opt": "#[sv::data(opt)]", "raw": "#[sv::data(raw)]", "rawopt": "#[sv::data(raw, opt)]",
@@ -52,13 +56,13 @@ def method_src(prog, m):
             recs.append("let dataj = serde_json::json!({\"t\":\"-\"});")
         recs.append("let secondj = serde_json::json!({\"kind\":\"none\",\"text\":\"\",\"ok\":false,\"cf\":false});")
     elif m["on"] == "error":
-        params.append("error: String")
+        params.append("sm_error: String")
         recs.append("let dataj = serde_json::json!({\"t\":\"-\"});")
-        recs.append("let secondj = serde_json::json!({\"kind\":\"error\",\"cf\":error.contains(\"callee failed\"),\"text\":error,\"ok\":false});")
+        recs.append("let secondj = serde_json::json!({\"kind\":\"error\",\"cf\":sm_error.contains(\"callee failed\"),\"text\":sm_error,\"ok\":false});")
     else:
-        params.append("result: SubMsgResult")
+        params.append("sm_result: SubMsgResult")
         recs.append("let dataj = serde_json::json!({\"t\":\"-\"});")
-        recs.append("let secondj = serde_json::json!({\"kind\":\"result\",\"cf\":rec::result_text(&result).contains(\"callee failed\"),\"text\":rec::result_text(&result),\"ok\":result.is_ok(),\"full\":rec::result_full(&result)});")
+        recs.append("let secondj = serde_json::json!({\"kind\":\"result\",\"cf\":rec::result_text(&sm_result).contains(\"callee failed\"),\"text\":rec::result_text(&sm_result),\"ok\":sm_result.is_ok(),\"full\":rec::result_full(&sm_result)});")
     pay = PAYLOAD[m["payload"]]
     for n, t in pay:
         attr = "#[sv::payload(raw)] " if m["payload"] == "raw" else ""
